@@ -132,6 +132,21 @@ def bizmap_task(task):
                    dict(argv=argv, input=lines[k], expected=exp[k], observed=got), cls=c)
     if outs:
         sh.sample(dict(cmd=core.shq(argv), input=lines[0], output=outs[0]), cap=1)
+    # read through the explicit input format instead of the standard parser
+    argv4 = [str(bindir / "dconv"), "-i", "%Y-%m-%db", "-f", "%F"]
+    r4 = run(argv4, stdin=("\n".join(lines) + "\n").encode(), cpu=60, wall=300)
+    sh.procs += 1
+    sh.check_san(r4, "san", "bizmap:ifmt:san")
+    outs4, _ = align_lines(lines, r4)
+    for k, got in enumerate(outs4):
+        idx = int(lines[k][8:10])
+        c = ("bizmap-ifmt", "idx%d" % idx if idx > 19 or idx < 3 else "idx-mid")
+        if got == exp[k]:
+            sh.ok("bizmap", c)
+        else:
+            sh.bad("bizmap", "bizmap:ifmt:%s:err=%s" % ("hi" if idx > 19 else "lo", addsweep.err_shape(got, ())),
+                   "dconv -i %%Y-%%m-%%db %s -f %%F -> %r, the %d-th Mon-Fri day of that month is %s" % (lines[k], got, idx, exp[k]),
+                   dict(argv=argv4, input=lines[k], expected=exp[k], observed=got), cls=c)
     # and back: the civil date (in four spellings) printed as business day of the month gives the index again
     for rep in ("ymd", "ywd", "yd", "ymcw"):
         if (len(lines) + len(rep)) % 4 != ("ymd", "ywd", "yd", "ymcw").index(rep) and rep != "ymd":
@@ -240,7 +255,7 @@ def main(tier, seed):
                 "found by stepping over date.weekday(); N in +-%s + random up to 200000; every weekday as start "
                 "incl. weekend starts; (2) ddiff A B -f %%db for B = A (+) n business days must print n (inversion), "
                 "and for arbitrary pairs the Mon-Fri count of the half-open interval (either end open accepted); "
-                "(3) every YYYY-MM-DDb (all months%s, all indices) through dconv -f %%F, -f '%%Y-%%m-%%c-%%w|%%c', -f %%jb and -f ldn, and the civil date (ymd, ywd, yd, ymcw spelling) back through -f %%Y-%%m-%%db. distinct_nontrivial = "
+                "(3) every YYYY-MM-DDb (all months%s, all indices) through dconv -f %%F (standard parser and -i '%%Y-%%m-%%db'), -f '%%Y-%%m-%%c-%%w|%%c', -f %%jb and -f ldn, and the civil date (ymd, ywd, yd, ymcw spelling) back through -f %%Y-%%m-%%db. distinct_nontrivial = "
                 "distinct (monitor, calendar, start weekday, n mod 5, sign, week-wrap)" %
                 (CALS, N_LIST, " of every third year" if quick else ""))
     ctx.assumptions = ["n = 0 is excluded by the statement",
